@@ -46,6 +46,14 @@ def features(m, end):
         f.add('forward_jump')
     if st['pops_of_own_values_from_stack0']:
         f.add('stack0_used_as_data')
+    if st['jump_from_first_command']:
+        f.add('jump_from_first_command')
+    if st['heart_return_to_first_command']:
+        f.add('heart_return_to_first_command')
+    if st['two_labels_one_command']:
+        f.add('two_labels_one_command')
+    if st['jump_to_multi_label_command_after_read']:
+        f.add('jump_to_multi_label_command_after_read')
     if st['jump_back_over_first_read']:
         f.add('jump_into_prefix_after_read')
     if st['stdin_reads']:
@@ -225,23 +233,41 @@ def prefix_model(prog, limits=None):
     """Where would level-2 pre-execution stop?  Used ONLY to classify workloads for the evidence
     histogram (never for a verdict). -> (commands_pre_executed, cause) with cause in
     io (pop from stack 0-2), budget (>= 100 jumps in one top-level command), end, other."""
+    k, cause, _ = prefix_model_info(prog, limits)
+    return k, cause
+
+
+def prefix_model_info(prog, limits=None):
+    """prefix_model plus what the ABANDONED speculation of the first residual command did before it was given up:
+    info = {jumps, latest_changed, labels_added, heart_return_taken} (classification of workloads only)."""
     m = _SpecMachine(prog, '', limits or Limits(steps=50000))
     k = 0
     n = len(prog)
+    snap = {'jumps': 0, 'latest': None, 'labels': 0, 'returns': 0}
+    first = [None]
+
+    def info():
+        return {'jumps': m.st['jumps'] - snap['jumps'], 'latest_changed': m.latest != snap['latest'],
+                'labels_added': len(m.labels) - snap['labels'], 'heart_return_taken': m.st['heart_returns'] - snap['returns'],
+                'first_step_return': first[0]}
     try:
         while k < n:
-            j0 = m.st['jumps']
+            snap = {'jumps': m.st['jumps'], 'latest': m.latest, 'labels': len(m.labels), 'returns': m.st['heart_returns']}
             loc = k
+            first[0] = None
             while loc <= k:
-                if m.st['jumps'] - j0 >= 100:
-                    return k, 'budget'
+                if m.st['jumps'] - snap['jumps'] >= 100:
+                    return k, 'budget', info()
                 m.steps += 1
                 if m.steps > m.lim.steps:
-                    return k, 'other'
+                    return k, 'other', info()
+                r0 = m.st['heart_returns']
                 loc = m.step(loc)
+                if first[0] is None:
+                    first[0] = m.st['heart_returns'] > r0
             k += 1
     except _Spec:
-        return k, 'io'
+        return k, 'io', info()
     except Exception:
-        return k, 'other'
-    return k, 'end'
+        return k, 'other', info()
+    return k, 'end', {'jumps': 0, 'latest_changed': False, 'labels_added': 0, 'heart_return_taken': 0, 'first_step_return': False}
